@@ -20,7 +20,7 @@ func init() {
 		Run: c13,
 		Explanation: "Decides the lock discipline and the watch bookkeeping of the controller engine as shapes of the code: (R13.1) every read of ControllerEngine.controllers, controller.sources, InformerTrackingCache.active and PackagedFunctionRunner.conns happens with the owning mutex held on every path, every write with the write lock (forward lockset analysis, path-sensitive in the lock state, conditional-defer idiom handled); " +
 			"(R13.2) no return with a lock held, no unlock of an unheld lock, no re-acquisition; (R13.3) the held→acquired graph, closed over calls made under a lock, is acyclic; (R13.4) the watch start/stop actions are taken under the write lock and are dominated by a lookup of c.sources made under that write lock (re-check after upgrade); " +
-			"(R13.5) a source is recorded only on the not-already-watching edge after ok(ctrl.Watch(src)), and it is the source that was started; (R13.6) the watch collector only ever selects watch ids whose Type is compared equal to WatchTypeComposedResource; (R13.7) Start records a controller only after its constructor succeeded, IsRunning is a pure lookup; (R13.9) Stop returns nil for a running controller only after every source was stopped (event handlers removed), then cancel() and delete(controllers) — the rule shared with C08 R8.6. R13.8 also covers the decision under the write lock (a watch is left alone only when it exists and its informer is active); R13.7 also requires that the goroutine running a controller stops it by name only after that run returned an error.",
+			"(R13.5) a source is recorded only on the not-already-watching edge after ok(ctrl.Watch(src)), and it is the source that was started; (R13.6) the watch collector only ever selects watch ids whose Type is compared equal to WatchTypeComposedResource; (R13.7) Start records a controller only after its constructor succeeded, IsRunning is a pure lookup; (R13.9) Stop returns nil for a running controller only after every source was stopped (event handlers removed), then cancel() and delete(controllers) — the rule shared with C08 R8.6. R13.8 also covers the decision under the write lock (a watch is left alone only when it exists and its informer is active); R13.7 also requires that the goroutine running a controller stops it by name only after that run returned an error. R13.5 also requires that StopWatches forgets a watch only after its source stopped.",
 		NotDecided:  []string{"absence of deadlock/races as a whole-program theorem (only the discipline on the named fields and mutexes)", "informer and controller-runtime behaviour", "scheduling / interleavings", "instance-sensitivity: locks are identified by struct type and field"},
 		Assumptions: []string{"sync.RWMutex semantics", "kcontroller.Controller.Watch calls the source's Start synchronously"},
 	})
